@@ -1,4 +1,5 @@
 import B6.Lemmas.Dijkstra
+import B6.Lemmas.DijkstraHeap
 /-!
 # C30 — shortest-path search finds true shortest distances and routes
 
@@ -21,13 +22,17 @@ non-negative weight) and, for routes, `FirstOk g` (`Traverse(p)` yields segments
                            cost (= the true shortest distance), and every point with a walk cheaper than `max`
                            is recorded
 * `search_to_correct`, `search_to_route`, `early_stop_second_condition_dead`   `ExpandSearchTo`'s early stop
+* `heap_pop_min`, `heap_push_preserves`, `heap_fix_preserves`, `runHU_eq_runH_of_heap`   the queue is a binary
+                           heap of the unvisited entries; `Pop` returns a queued minimum; the run-time check is redundant
+* `searchU_reach`, `searchU_optimal`   unconditional: the unchecked loop from a single origin
+* `search_to_known_destination_correct`   `ExpandSearchTo` towards a point the search already knows (the origin)
 * `runH_reach`, `search_reach`, `searchTo_reach`   the executable heap-driven model (`runH`, the one the driver
                            runs) only produces runs of the abstract search
 -/
 set_option linter.unusedSectionVars false
 set_option linter.unusedVariables false
 namespace B6.Props.C30
-open B6.Model.Dijkstra B6.Spec.ShortestPath B6.Lemmas.Dijkstra
+open B6.Model.Dijkstra B6.Spec.ShortestPath B6.Lemmas.Dijkstra B6.Lemmas.DijkstraHeap
 
 variable {P S α : Type} [DecidableEq P] [Cost α] [LawfulCost α]
 variable {g : Graph P S α} {origins : List P} {max : α}
@@ -77,18 +82,25 @@ theorem settled_final (hN : NonNeg g) {tr : List (P × α)} {t : Table P S α}
 (1) every recorded distance is the true shortest distance of its point — it is the cost of a walk from an
 origin and at most the cost of every walk to that point;
 (2) every point that has a walk of cost `< max` is recorded. -/
-theorem dijkstra_optimal (hN : NonNeg g) {tr : List (P × α)} {t : Table P S α}
-    (h : Reach g max (initTable origins) tr t) (hfin : allVisited t = true) :
+theorem dijkstra_optimal_of_settled (hN : NonNeg g) {tr : List (P × α)} {t : Table P S α}
+    (h : Reach g max (initTable origins) tr t) (hfin : ∀ p e, tget t p = some e → e.visited = true) :
     (∀ p e, tget t p = some e →
       (∃ es, Walk g origins p e.dist es) ∧ ∀ c es, Walk g origins p c es → e.dist ≤ c) ∧
     (∀ p c es, Walk g origins p c es → c < max → ∃ e, tget t p = some e ∧ e.dist ≤ c) := by
   have hI := h.inv hN (Inv.init g origins max)
-  refine ⟨fun p e hp => settled_final hN h hp (allVisited_sound hfin hp), ?_⟩
+  refine ⟨fun p e hp => settled_final hN h hp (hfin p e hp), ?_⟩
   intro p c es hw hc
   rcases walk_exit hN hI hw hc with hl | ⟨y, ey, hy, hyv, _⟩
   · exact hl
-  · have := allVisited_sound hfin hy
+  · have := hfin y ey hy
     rw [hyv] at this; cases this
+
+theorem dijkstra_optimal (hN : NonNeg g) {tr : List (P × α)} {t : Table P S α}
+    (h : Reach g max (initTable origins) tr t) (hfin : allVisited t = true) :
+    (∀ p e, tget t p = some e →
+      (∃ es, Walk g origins p e.dist es) ∧ ∀ c es, Walk g origins p c es → e.dist ≤ c) ∧
+    (∀ p c es, Walk g origins p c es → c < max → ∃ e, tget t p = some e ∧ e.dist ≤ c) :=
+  dijkstra_optimal_of_settled hN h (fun _ _ hp => allVisited_sound hfin hp)
 
 /-! ### `ExpandSearchTo` -/
 
@@ -219,23 +231,111 @@ theorem search_reach (g : Graph P S α) (max : α) (origins : List P) (fuel : Na
   · exact ⟨tr, ht ▸ hr⟩
   · simp at hsome
 
+/-- the table `ExpandSearchTo(dest)` starts from: the `+Inf` placeholder is entered only for an unknown `dest` -/
+def searchToTable (origins : List P) (dest : P) (inf : α) : Table P S α :=
+  match tget (initTable origins : Table P S α) dest with
+  | some _ => initTable origins
+  | none => tput (initTable origins) dest { visited := false, dist := inf, back := none }
+
 /-- `searchTo`: a finished run either exhausted the queue or stopped right after popping a minimum. -/
 theorem searchTo_reach (g : Graph P S α) (max inf : α) (origins : List P) (dest : P) (fuel : Nat)
-    (s' : HState P S α) (h : searchTo g max inf origins dest fuel = some (.done s')) :
-    ∃ tr t, Reach g max (tput (initTable origins) dest { visited := false, dist := inf, back := none }) tr t ∧
+    (s' : HState P S α) (h : searchTo g max inf origins dest fuel = .done s') :
+    ∃ tr t, Reach g max (searchToTable origins dest inf) tr t ∧
       ((s'.t = t ∧ s'.heap.size = 0) ∨ (∃ p r, IsMin t p ∧ markVisited t p = some (s'.t, r))) := by
-  unfold searchTo sentinelTable at h
-  split at h
-  · cases h
-  · split at h
-    · simp at h
-    · rename_i hh hpush
-      simp at h
+  unfold searchTo searchToStart at h
+  unfold searchToTable
+  cases hd : tget (initTable origins : Table P S α) dest with
+  | some e0 =>
+    simp only [hd] at h
+    obtain ⟨tr, t, hr, halt⟩ := runH_reach g max (some dest) fuel _ s' h
+    refine ⟨tr, t, hr, ?_⟩
+    rcases halt with hl | ⟨p, r, _, h1, h2⟩
+    · exact Or.inl hl
+    · exact Or.inr ⟨p, r, h1, h2⟩
+  | none =>
+    simp only [hd, sentinelTable] at h
+    cases hp : Heap.push (tput (initTable origins) dest { visited := false, dist := inf, back := none })
+        (initHeap origins) dest with
+    | none => rw [hp] at h; simp at h
+    | some hh =>
+      rw [hp] at h; simp only [Option.map_some] at h
       obtain ⟨tr, t, hr, halt⟩ := runH_reach g max (some dest) fuel _ s' h
       refine ⟨tr, t, hr, ?_⟩
       rcases halt with hl | ⟨p, r, _, h1, h2⟩
       · exact Or.inl hl
       · exact Or.inr ⟨p, r, h1, h2⟩
+
+/-- `ExpandSearchTo(dest)` for a destination the search already knows (after fix
+C30-expandsearchto-known-destination: its entry is kept — before, it was replaced by the `+Inf` placeholder and
+the origin ended up recorded at `+Inf`): when `dest` is popped its recorded distance is the true one. In
+particular for `dest` = the origin the recorded distance stays the walk cost 0. -/
+theorem search_to_known_destination_correct (hN : NonNeg g) {tr : List (P × α)} {t : Table P S α}
+    (h : Reach g max (initTable origins) tr t) {dest : P} {e : Entry P S α}
+    (hp : tget t dest = some e) (hmin : IsMin t dest) :
+    (∃ es, Walk g origins dest e.dist es) ∧ ∀ c es, Walk g origins dest c es → e.dist ≤ c := by
+  have hI := h.inv hN (Inv.init g origins max)
+  obtain ⟨e', hp', _, hm⟩ := hmin
+  rw [hp] at hp'; cases hp'
+  refine ⟨settled_is_walk_cost hN h hp, ?_⟩
+  intro c es hw
+  by_cases hc : c < max
+  · rcases walk_exit hN hI hw hc with ⟨e', he', hd'⟩ | ⟨y, ey, hy, hyv, hd'⟩
+    · rw [hp] at he'; cases he'; exact hd'
+    · exact le_trans' (le_of_not_lt (hm y ey hy hyv)) hd'
+  · rcases hI.core.lt_or_root hp with hlt | ⟨_, hz⟩ | ⟨hj, _⟩
+    · exact le_trans' (le_of_lt hlt) (le_of_not_lt hc)
+    · rw [hz]; exact walk_nonneg hN hw
+    · exact absurd hj id
+
+/-! ### the queue is a binary heap: the run-time check is redundant -/
+
+/-- `heap.Pop` on a well-formed queue (`HInv`: heap order under `Less`, exactly the unvisited entries, each once)
+returns a minimum of the queued entries and leaves a well-formed rest. -/
+theorem heap_pop_min {s : HState P S α} (hI : HInv s) (hne : s.heap.size ≠ 0) :
+    ∃ p h1, Heap.pop s.t s.heap = some (p, h1) ∧ IsMin s.t p ∧ Inj h1 ∧ Ord s.t h1 h1.size ∧
+      (∀ q, Mem h1 q ↔ (q ≠ p ∧ Mem s.heap q)) :=
+  pop_spec hI hne
+
+/-- `heap.Push` of a newly recorded point preserves the heap invariant. -/
+theorem heap_push_preserves {t0 : Table P S α} {h : Array P} {v : P} {ne : Entry P S α}
+    (hI : HInv { t := t0, heap := h }) (hv : tget t0 v = none) (hnv : ne.visited = false) :
+    ∃ h', Heap.push (tput t0 v ne) h v = some h' ∧ HInv { t := tput t0 v ne, heap := h' } :=
+  push_spec hI hv hnv
+
+/-- `heap.Fix` after `AddOrUpdate`'s strict decrease preserves the heap invariant (the position is found through
+the queue itself — the model's counterpart of `reachable.index`). -/
+theorem heap_fix_preserves {t0 : Table P S α} {h : Array P} {v : P} {n ne : Entry P S α}
+    (hI : HInv { t := t0, heap := h }) (hv : tget t0 v = some n) (hvu : n.visited = false)
+    (hnv : ne.visited = false) (hd : ne.dist < n.dist) :
+    ∃ h', Heap.fix (tput t0 v ne) h v = some h' ∧ HInv { t := tput t0 v ne, heap := h' } :=
+  fix_spec hI hv hvu hnv hd
+
+/-- The loop exactly as the code has it (`runHU`, no check of what the heap returns) equals the checked loop
+whenever it starts from a well-formed queue: `isMinB` never fails. -/
+theorem runHU_eq_runH_of_heap (g : Graph P S α) (max : α) (to : Option P) (fuel : Nat) (s : HState P S α)
+    (hI : HInv s) : runHU g max to fuel s = runH g max to fuel s :=
+  runHU_eq_runH g max to fuel s hI
+
+/-- **Unconditional run theorem**: `NewShortestPathSearchFromPoint(o)` + `ExpandSearch(max)` with the real
+binary heap and *no* run-time check (`searchU`): a finished run is a run of the abstract search. -/
+theorem searchU_reach (g : Graph P S α) (max : α) (o : P) (fuel : Nat) (s' : HState P S α)
+    (h : searchU g max [o] fuel = .done s') : ∃ tr, Reach g max (initTable [o]) tr s'.t := by
+  unfold searchU at h
+  rw [runHU_eq_runH g max none fuel _ (HInv.init o)] at h
+  exact search_reach g max [o] fuel s' h
+
+/-- **Unconditional optimality**: whatever `searchU` returns when it finishes is the true answer — every
+recorded distance is a walk cost and at most every walk cost, and every point with a walk cheaper than `max` is
+recorded. No hypothesis about the heap, the pops or `allVisited`. -/
+theorem searchU_optimal (hN : NonNeg g) (o : P) (fuel : Nat) (s' : HState P S α)
+    (h : searchU g max [o] fuel = .done s') :
+    (∀ p e, tget s'.t p = some e →
+      (∃ es, Walk g [o] p e.dist es) ∧ ∀ c es, Walk g [o] p c es → e.dist ≤ c) ∧
+    (∀ p c es, Walk g [o] p c es → c < max → ∃ e, tget s'.t p = some e ∧ e.dist ≤ c) := by
+  obtain ⟨tr, hr⟩ := searchU_reach g max o fuel s' h
+  unfold searchU at h
+  rw [runHU_eq_runH g max none fuel _ (HInv.init o)] at h
+  exact dijkstra_optimal_of_settled hN hr (runH_done_allVisited g max fuel _ s' (HInv.init o) h)
 
 end B6.Props.C30
 
